@@ -1,15 +1,18 @@
 package p_agree
 
 import (
+	"encoding/json"
 	"fmt"
 	"math/bits"
 	"sort"
 	"strings"
+	"sync"
 	"testing"
 
 	"github.com/spikeekips/mitum/base"
 	"github.com/spikeekips/mitum/isaac"
 	"github.com/spikeekips/mitum/util"
+	"github.com/spikeekips/mitum/util/encoder"
 	"pgregory.net/rapid"
 	"verif/internal/ev"
 	"verif/internal/gen"
@@ -36,6 +39,14 @@ type c03Cand struct {
 	// "" not a stuck voteproof, "nil" none (the honest form, the type's own Finish()), "maj" fact Maj, "other" the other fact,
 	// "unvoted" a third fact Z of this stage point that nobody signed
 	Stuck string
+	// forged votes: the voters in Forged (subset of VoteMaj|VoteOther) did NOT sign the sign fact that carries their name. The sign
+	// fact names the node and carries the node's own publickey, but the signature is not a signature of that key over that fact:
+	// Forge "spliced": the node's genuine signature over the OTHER fact of this stage point (X<->Y, no expel listing) moved onto the
+	// claimed fact; Forge "other-key": a signature over the claimed fact made with another key (the lowest genuine voter of this
+	// voteproof, the foreign node when every vote is forged) while the signer field still says the node's key. Both are made on the
+	// decoded JSON of a real sign fact and decoded again with the real encoder (what a peer can put on the wire).
+	Forged uint
+	Forge  string
 }
 
 func (c c03Cand) String() string {
@@ -54,8 +65,13 @@ func (c c03Cand) String() string {
 		stuck = " STUCK-voteproof carrying-majority=" + c.stuckMajorityName()
 	}
 
-	return fmt.Sprintf("n=%d %s maj=%c votes=%0*b other=%0*b expelled=%0*b signers=[%s] listed=%v tweak=%q keyof=%d%s%s",
-		c.N, c.Stage, "XY"[c.Maj], c.N, c.VoteMaj, c.N, c.VoteOther, c.N, c.Expelled, strings.Join(ss, ","), c.ListFacts, c.Tweak, c.KeyOf, replay, stuck)
+	forged := ""
+	if c.Forged != 0 {
+		forged = fmt.Sprintf(" FORGED-signatures(%s) in-the-name-of=%0*b", c.Forge, c.N, c.Forged)
+	}
+
+	return fmt.Sprintf("n=%d %s maj=%c votes=%0*b other=%0*b expelled=%0*b signers=[%s] listed=%v tweak=%q keyof=%d%s%s%s",
+		c.N, c.Stage, "XY"[c.Maj], c.N, c.VoteMaj, c.N, c.VoteOther, c.N, c.Expelled, strings.Join(ss, ","), c.ListFacts, c.Tweak, c.KeyOf, replay, stuck, forged)
 }
 
 // stuckMajority is the fact a stuck candidate carries as majority: -1 none, 0 X, 1 Y, 2 Z (signed by nobody).
@@ -79,6 +95,7 @@ func (c c03Cand) stuckMajorityName() string {
 
 	return "nil"
 }
+
 
 var c03Point = base.RawPoint(33, 1)
 
@@ -131,6 +148,113 @@ func c03factAt(stage base.Stage, pt, which int, efs []util.Hash) base.BallotFact
 	}
 
 	return isaac.NewACCEPTBallotFact(point, gen.H("proposal"+at), gen.H("newblock-"+label), efs)
+}
+
+var (
+	c03forgedMu sync.Mutex
+	c03forged   = map[string]base.BallotSignFact{}
+)
+
+// c03forge returns a sign fact over `claimed` that names node idx and carries that node's publickey, with a signature the node never
+// made over that fact. It is produced the way a remote peer would: the JSON of a real sign fact is edited and decoded again by the
+// real encoder, so the result is an ordinary isaac.INITBallotSignFact / ACCEPTBallotSignFact.
+//   - "spliced": the sign of the node's genuine sign fact over `source` (another fact the node really signed) replaces the sign of `claimed`
+//   - "other-key": `claimed` is signed with the key of node keyidx under the address of node idx; the signer field is then replaced by
+//     the publickey of node idx
+func c03forge(how string, claimed, source base.BallotFact, idx, keyidx int) base.BallotSignFact {
+	ck := fmt.Sprintf("%s|%T|%s|%d|%d", how, claimed, claimed.Hash(), idx, keyidx)
+	if how == "spliced" {
+		ck += "|" + source.Hash().String()
+	}
+
+	c03forgedMu.Lock()
+	defer c03forgedMu.Unlock()
+
+	if sf, ok := c03forged[ck]; ok {
+		return sf
+	}
+
+	must := func(err error) {
+		if err != nil {
+			panic(fmt.Sprintf("c03forge(%s): %+v", how, err))
+		}
+	}
+
+	node := gen.Local(idx)
+
+	signWith := func(f base.BallotFact, priv base.Privatekey) base.BallotSignFact {
+		switch ft := f.(type) {
+		case base.INITBallotFact:
+			sf := isaac.NewINITBallotSignFact(ft)
+			must(sf.NodeSign(priv, gen.NetworkID, node.Address()))
+
+			return sf
+		case base.ACCEPTBallotFact:
+			sf := isaac.NewACCEPTBallotSignFact(ft)
+			must(sf.NodeSign(priv, gen.NetworkID, node.Address()))
+
+			return sf
+		default:
+			panic(fmt.Sprintf("c03forge: unknown fact %T", f))
+		}
+	}
+
+	asMap := func(v any) map[string]json.RawMessage {
+		b, err := util.MarshalJSON(v)
+		must(err)
+
+		var m map[string]json.RawMessage
+		must(json.Unmarshal(b, &m))
+
+		return m
+	}
+
+	var doc map[string]json.RawMessage
+
+	switch how {
+	case "spliced":
+		// the node's genuine sign fact over `source`; its fact is replaced by `claimed`
+		doc = asMap(signWith(source, node.Privatekey()))
+
+		b, err := util.MarshalJSON(claimed)
+		must(err)
+
+		doc["fact"] = b
+	case "other-key":
+		doc = asMap(signWith(claimed, gen.Local(keyidx).Privatekey()))
+
+		var sign map[string]json.RawMessage
+		must(json.Unmarshal(doc["sign"], &sign))
+
+		b, err := util.MarshalJSON(node.Publickey())
+		must(err)
+
+		sign["signer"] = b
+
+		b, err = json.Marshal(sign)
+		must(err)
+
+		doc["sign"] = b
+	default:
+		panic("c03forge: unknown method " + how)
+	}
+
+	b, err := json.Marshal(doc)
+	must(err)
+
+	_, enc := gen.Encoders()
+
+	var sf base.BallotSignFact
+	must(encoder.Decode(enc, b, &sf))
+
+	// harness self-check: the decoded object says what the forger wants it to say
+	if !sf.Node().Equal(node.Address()) || !sf.Signer().Equal(node.Publickey()) || !sf.Fact().Hash().Equal(claimed.Hash()) {
+		panic(fmt.Sprintf("c03forge(%s): decoded sign fact names %v/%v over %v", how, sf.Node(), sf.Signer(), sf.Fact().Hash()))
+	}
+
+	c03forged[ck] = sf
+
+	return sf
 }
 
 // c03build assembles the real voteproof described by c.
@@ -232,15 +356,35 @@ func c03build(c c03Cand, th base.Threshold) base.Voteproof {
 		return gen.SignACCEPT(f.(base.ACCEPTBallotFact), node) //nolint:forcetypeassert //...
 	}
 
+	// the key behind "other-key" forgeries: the lowest genuine voter of this voteproof, the foreign node when every vote is forged
+	forgeKey := c.N
+
+	for i := 0; i < c.N; i++ {
+		if (c.VoteMaj|c.VoteOther)&^c.Forged&(1<<uint(i)) != 0 {
+			forgeKey = i
+
+			break
+		}
+	}
+
+	vote := func(i, which int) base.BallotSignFact {
+		if c.Forged&(1<<uint(i)) != 0 {
+			// the sign fact claims voted(i, which); what the node really signed (spliced) is the other fact of this stage point
+			return c03forge(c.Forge, voted(i, which), c03factAt(c.Stage, 0, 1-which, nil), i, forgeKey)
+		}
+
+		return sign(voted(i, which), gen.Local(i))
+	}
+
 	for i := 0; i <= c.N; i++ { // index n = foreign node (not in the suffrage)
 		if c.VoteMaj&(1<<uint(i)) != 0 {
-			sfs = append(sfs, sign(voted(i, c.Maj), gen.Local(i)))
+			sfs = append(sfs, vote(i, c.Maj))
 		}
 	}
 
 	for i := 0; i <= c.N; i++ {
 		if c.VoteOther&(1<<uint(i)) != 0 {
-			sfs = append(sfs, sign(voted(i, 1-c.Maj), gen.Local(i)))
+			sfs = append(sfs, vote(i, 1-c.Maj))
 		}
 	}
 
@@ -384,7 +528,9 @@ func TestC03(t *testing.T) {
 		"(every assignment node -> {absent, vote for this point, vote for the other point} x majority fact of this or of the other point; with expels signed by all others: whole vote set replayed / one replayed vote); " +
 		"plus the family 'stuck': stuck voteproofs (INITStuckVoteproof / ACCEPTStuckVoteproof) for this point, every assignment node -> {absent, signs X, signs Y, expelled} with k>=1 expelled and every expel signed by all other nodes, " +
 		"x {the sign facts of X list the expel facts or not} x carried majority {none = the type's own Finish(), X, Y, a third fact Z nobody signed}; they join the same pool, so each is paired with every accepted plain, expel, tweaked, replayed and stuck voteproof; a voteproof without majority is never one side of a conflict; " +
-		"plus rapid-drawn voteproofs with minority votes, arbitrary signer sets, arbitrary replayed voter subsets and stuck voteproofs with arbitrary vote splits and signer sets. Every pair of accepted voteproofs for the point with different majority facts is judged: equivocators = nodes signing two different facts for one and the same stage point in the two. " +
+		"plus the family 'forged-signature': votes in the names of suffrage nodes that never signed them - the sign fact names the node and carries the node's own publickey, but the signature is the node's genuine signature over the other fact of this stage point spliced onto the claimed fact, or a signature made with another key (the lowest genuine voter of the voteproof, a foreign key when every vote is forged); edited on the JSON of a real sign fact and decoded again by the real encoder. " +
+		"Plain: every voter set x every non-empty subset of forged voters (one genuine vote first / in the middle / last, several genuine votes, all forged) x both majorities; with minority votes: one whole side forged, everybody but the lowest / highest voter forged; with expels (genuinely signed by all others, listed or not): all voters forged, all but the lowest / middle / highest. A forged vote is not a signature of the named node: the node does not count as signing the claimed fact (spliced: it signed the other fact, which is what its signature covers). " +
+		"plus rapid-drawn voteproofs with minority votes, arbitrary signer sets, arbitrary replayed voter subsets, stuck voteproofs with arbitrary vote splits and signer sets, and arbitrary forged voter subsets in any of them. Every pair of accepted voteproofs for the point with different majority facts is judged: equivocators = nodes signing two different facts for one and the same stage point in the two. " +
 		"non-trivial = distinct pair of accepted voteproofs with different majorities (the pair reached the predicate)")
 	r.Floor(20)
 	r.Assume("both voteproofs carry the network threshold t (a voteproof's own threshold field is not varied; a stuck voteproof carries 100 as its type demands)",
@@ -392,7 +538,8 @@ func TestC03(t *testing.T) {
 		"f = n - ceil(n*t/100) computed with exact integer arithmetic",
 		"a node that signs one fact per stage point is honest: its vote for another round/height/stage is not a second vote for this stage point",
 		"a stuck voteproof carries threshold 100 (fixed by its type), so its bytes do not depend on the network threshold t: its validation verdict is computed once per (n, stage) and reused for every t; t enters the judgement of its pairs through f only",
-		"a majority-carrying stuck voteproof is finished like every other voteproof type (SetMajority, SetThreshold(100), Finish of the embedded voteproof): any peer can encode and send one")
+		"a majority-carrying stuck voteproof is finished like every other voteproof type (SetMajority, SetThreshold(100), Finish of the embedded voteproof): any peer can encode and send one",
+		"'sign' in the statement means a signature made with the node's private key over that fact: a sign fact that merely names a node and its publickey (forged) is not a vote of that node and does not make it an equivocator; anybody can put such bytes on the wire")
 
 	type cfg struct {
 		n   int
@@ -583,6 +730,121 @@ func TestC03(t *testing.T) {
 				}
 			}
 
+			// forged signatures: votes in the names of suffrage nodes that never signed them (see c03Cand.Forged), made by splicing
+			// the node's genuine signature over the other fact of this stage point onto the claimed fact, or with another key.
+			// plain: every voter set x every non-empty subset of forged voters (so a single genuine vote comes first, in the middle
+			// and last in the sign fact list, several genuine votes surround forged ones, and every vote is forged).
+			var nforged int64
+
+			tryForged := func(c c03Cand) {
+				for _, how := range []string{"spliced", "other-key"} {
+					c.Tweak, c.Forge = "forged-signature", how
+					before := len(acc)
+					try(c)
+					nforged += int64(len(acc) - before)
+				}
+			}
+
+			for votes := uint(1); votes < 1<<uint(n); votes++ {
+				for forged := votes; forged != 0; forged = (forged - 1) & votes {
+					for maj := 0; maj < 2; maj++ {
+						tryForged(c03Cand{N: n, Stage: stage, Maj: maj, VoteMaj: votes, Forged: forged})
+					}
+				}
+			}
+
+			// forged minority votes and forged majority votes next to genuine minority votes: node -> {absent, votes declared majority,
+			// votes the other fact}; forged = one whole side, or everybody but the lowest / the highest voter
+			for a := 0; a < total; a++ {
+				var votes, other uint
+
+				x := a
+				for i := 0; i < n; i++ {
+					switch x % 3 {
+					case 1:
+						votes |= 1 << uint(i)
+					case 2:
+						other |= 1 << uint(i)
+					}
+
+					x /= 3
+				}
+
+				if votes == 0 || other == 0 {
+					continue
+				}
+
+				all := votes | other
+				seen := map[uint]bool{}
+
+				for _, forged := range []uint{votes, other, all &^ (all & -all), all &^ (1 << uint(bits.Len(all)-1))} {
+					if forged == 0 || seen[forged] {
+						continue
+					}
+
+					seen[forged] = true
+
+					tryForged(c03Cand{N: n, Stage: stage, VoteMaj: votes, VoteOther: other, Forged: forged})
+				}
+			}
+
+			// with expels: node -> {absent, votes, expelled}, every expel genuinely signed by all other nodes, expel facts listed or
+			// not; forged = every voter, every voter but the lowest / a middle / the highest one
+			for a := 0; a < total; a++ {
+				var votes, expelled uint
+
+				x := a
+				for i := 0; i < n; i++ {
+					switch x % 3 {
+					case 1:
+						votes |= 1 << uint(i)
+					case 2:
+						expelled |= 1 << uint(i)
+					}
+
+					x /= 3
+				}
+
+				if votes == 0 || expelled == 0 {
+					continue
+				}
+
+				c := c03Cand{N: n, Stage: stage, VoteMaj: votes, Expelled: expelled}
+
+				for e := 0; e < n; e++ {
+					if expelled&(1<<uint(e)) != 0 {
+						c.Signers = append(c.Signers, (uint(1)<<uint(n)-1)&^(1<<uint(e)))
+					}
+				}
+
+				var voters []int
+				for i := 0; i < n; i++ {
+					if votes&(1<<uint(i)) != 0 {
+						voters = append(voters, i)
+					}
+				}
+
+				seen := map[uint]bool{}
+
+				for _, genuine := range []int{-1, voters[0], voters[len(voters)/2], voters[len(voters)-1]} {
+					c.Forged = votes
+					if genuine >= 0 {
+						c.Forged &^= 1 << uint(genuine)
+					}
+
+					if c.Forged == 0 || seen[c.Forged] {
+						continue
+					}
+
+					seen[c.Forged] = true
+
+					for _, listed := range []bool{true, false} {
+						c.ListFacts = listed
+						tryForged(c)
+					}
+				}
+			}
+
 			// replayed from another point: the votes the nodes honestly cast for a neighbouring stage point (round+-1, height+-1,
 			// other stage), packaged as a voteproof for this point. X<->Y symmetry: the replayed side is always X (Maj=0); the
 			// candidates above supply both majorities of this point as partners.
@@ -711,6 +973,7 @@ func TestC03(t *testing.T) {
 			c03pairs(t, r, n, t10, f, req, acc)
 			r.CaseN(evaluated, 0, fmt.Sprintf("cands:n=%d", n))
 			r.Class(fmt.Sprintf("accepted-stuck:n=%d,t=%d,%s", n, t10, stage), nstuck)
+			r.Class(fmt.Sprintf("accepted-forged:n=%d,t=%d,%s", n, t10, stage), nforged)
 			r.Class(fmt.Sprintf("accepted:n=%d,t=%d,%s", n, t10, stage), int64(len(acc)))
 		}
 	}
@@ -760,9 +1023,44 @@ func TestC03(t *testing.T) {
 					}
 				}
 
-				// some or all votes (and possibly the majority) replayed from a neighbouring stage point (stuck candidates are not
-				// combined with the replayed family)
-				if c.Stuck != "" {
+				// forged signatures in the names of some voters (any kind of voteproof: plain, minority votes, expels, stuck)
+				if how := rapid.SampledFrom([]string{"", "", "spliced", "other-key"}).Draw(rt, "forge"); how != "" {
+					voters := c.VoteMaj | c.VoteOther
+					forged := voters
+
+					switch rapid.SampledFrom([]string{"all-but-one", "all-but-one", "all", "mask"}).Draw(rt, "forged-voters") {
+					case "all-but-one":
+						// the genuine vote is the k-th vote of the voteproof (first / in the middle / last)
+						k := rapid.IntRange(0, n-1).Draw(rt, "genuine-position")
+						if cnt := bits.OnesCount(voters); cnt > 0 {
+							k %= cnt
+
+							for i := 0; i < n; i++ {
+								if voters&(1<<uint(i)) == 0 {
+									continue
+								}
+
+								if k == 0 {
+									forged &^= 1 << uint(i)
+
+									break
+								}
+
+								k--
+							}
+						}
+					case "mask":
+						forged &= uint(rapid.IntRange(1, 1<<uint(n)-1).Draw(rt, "forged-mask"))
+					}
+
+					if forged != 0 {
+						c.Tweak, c.Forge, c.Forged = "forged-signature", how, forged
+					}
+				}
+
+				// some or all votes (and possibly the majority) replayed from a neighbouring stage point (stuck and forged candidates
+				// are not combined with the replayed family)
+				if c.Stuck != "" || c.Forged != 0 {
 					c.Pt = 0
 				} else if c.Pt = rapid.SampledFrom([]int{0, 0, 0, 1, 2, 3, 4, 5}).Draw(rt, "replayed-from"); c.Pt != 0 {
 					c.From = c.VoteMaj | c.VoteOther
@@ -802,6 +1100,19 @@ func c03signedFact(c c03Cand, i int) (pt, which int, listed uint, ok bool) {
 		// only the key's owner signed anything (every sign fact carries its signature)
 		if i != c.KeyOf || c.VoteMaj == 0 {
 			return 0, 0, 0, false
+		}
+
+		return 0, c.Maj, 0, true
+	case c.Forged&bit != 0:
+		// the sign fact in the name of node i is not a signature of node i over the fact it claims. "other-key": node i signed
+		// nothing in there. "spliced": the signature inside is the node's genuine signature over the OTHER fact of this stage point
+		// (no expel listing), which is what the node signed.
+		if c.Forge != "spliced" {
+			return 0, 0, 0, false
+		}
+
+		if c.VoteMaj&bit != 0 {
+			return 0, 1 - c.Maj, 0, true
 		}
 
 		return 0, c.Maj, 0, true
@@ -893,6 +1204,8 @@ func c03pair(t ev.TB, r *ev.Rec, n, t10, f, req int, a, b c03Cand) {
 	ka, kb := bits.OnesCount(a.Expelled), bits.OnesCount(b.Expelled)
 
 	switch {
+	case a.Forged != 0 || b.Forged != 0:
+		sig = "conflict-forged-signature"
 	case a.Stuck != "" || b.Stuck != "":
 		sig = "conflict-stuck-with-majority"
 	case a.Pt != 0:
